@@ -513,3 +513,15 @@ Theorem C15_packed_subchart_errors :
   exists e, load_files md_merge lock_dec parse_values untar sanitize is_semver rest_valid maxt maxf (S fuel) l = inl e.
 Proof. exact packed_subchart_errors. Qed.
 Print Assumptions C15_packed_subchart_errors.
+
+(* Chart.lock vs requirements.lock: no precedence by name -- in one file list the one that comes
+   later in the list decides the lock (in both orders) *)
+Theorem C15_lock_last_wins :
+  forall (md_merge : meta -> string -> option meta) (lock_dec : string -> option (option lockv))
+         (parse_values : string -> option val) (st : lstate) (f g : file) (la lb : option lockv),
+  f_name f = "Chart.lock" -> f_name g = "requirements.lock" ->
+  lock_dec (f_data f) = Some la -> lock_dec (f_data g) = Some lb ->
+  (exists st', load_loop md_merge lock_dec parse_values st [f; g] = inr st' /\ ls_lock st' = lb) /\
+  (exists st', load_loop md_merge lock_dec parse_values st [g; f] = inr st' /\ ls_lock st' = la).
+Proof. exact lock_last_wins_names. Qed.
+Print Assumptions C15_lock_last_wins.
